@@ -123,15 +123,41 @@ def _const_in_compare(func, varname, op_type):
     return vals[0] if len(vals) == 1 else 0
 
 
+def _counter_guard_const(func):
+    """the integer N of the unique comparison `<name> > N` whose left side is a local that the
+    function increments with `+= 1` (the no-progress counter), whatever it is called; else 0"""
+    if func is None:
+        return 0
+    counters = set()
+    for x in ast.walk(func):
+        if (isinstance(x, ast.AugAssign) and isinstance(x.op, ast.Add) and isinstance(x.target, ast.Name)
+                and isinstance(x.value, ast.Constant) and x.value.value == 1):
+            counters.add(x.target.id)
+    vals = []
+    for x in ast.walk(func):
+        if (isinstance(x, ast.Compare) and isinstance(x.left, ast.Name) and x.left.id in counters
+                and len(x.ops) == 1 and isinstance(x.ops[0], ast.Gt)
+                and isinstance(x.comparators[0], ast.Constant) and isinstance(x.comparators[0].value, int)):
+            vals.append(x.comparators[0].value)
+    return vals[0] if len(vals) == 1 else 0
+
+
 def _range_const_of_for(func, nth=0):
     """N of the nth `for _ in range(N)` loop of func (document order), else 0"""
     if func is None:
         return 0
     loops = []
     for x in ast.walk(func):
-        if (isinstance(x, ast.For) and isinstance(x.iter, ast.Call) and _is_name_call(x.iter, "range")
-                and len(x.iter.args) == 1 and isinstance(x.iter.args[0], ast.Constant)):
-            loops.append((x.lineno, x.iter.args[0].value, x))
+        if isinstance(x, ast.For) and isinstance(x.iter, ast.Call) and _is_name_call(x.iter, "range"):
+            a = x.iter.args
+            consts = [y.value for y in a if isinstance(y, ast.Constant) and isinstance(y.value, int)]
+            if len(consts) != len(a):
+                continue
+            # range(N), range(0, N), range(0, N, 1)
+            if len(a) == 1:
+                loops.append((x.lineno, consts[0], x))
+            elif len(a) in (2, 3) and consts[0] == 0 and (len(a) == 2 or consts[2] == 1):
+                loops.append((x.lineno, consts[1], x))
     loops.sort()
     return loops[nth][1] if len(loops) > nth else 0
 
@@ -141,14 +167,19 @@ def compute():
     facts = {}
     ex = _parse("stackscope/_extract.py")
     ei = _find_def(ex, "extract_iter")
-    appends = lambda h: _has_call(h.body, lambda c: _is_attr_call(c, "save_errors", "append"))
+    def appends(h):
+        # the handler records the caught exception: `<some list>.append(<the exception variable>)`
+        if h.name is None:
+            return False
+        return _has_call(h.body, lambda c: isinstance(c.func, ast.Attribute) and c.func.attr == "append"
+                         and len(c.args) == 1 and isinstance(c.args[0], ast.Name) and c.args[0].id == h.name)
     facts["extract_g_unwrap"] = _guarded_sites(ei, lambda c: _is_name_call(c, "unwrap_stackitem"), appends)
     facts["extract_g_iter"] = _guarded_sites(
         ei, lambda c: _is_name_call(c, "next") and len(c.args) == 1 and isinstance(c.args[0], ast.Name) and c.args[0].id == "it", appends)
     facts["extract_g_ctx"] = _guarded_sites(ei, lambda c: _is_name_call(c, "contexts_active_in_frame"), appends)
     facts["extract_g_fill"] = _guarded_sites(ei, lambda c: _is_name_call(c, "fill_context"), appends)
     facts["extract_g_elab"] = _guarded_sites(ei, lambda c: _is_name_call(c, "elaborate_frame"), appends)
-    facts["unwrap_guard"] = _const_in_compare(ei, "loops_since_progress", ast.Gt)
+    facts["unwrap_guard"] = _counter_guard_const(ei)
     # partial operations on the deques outside any try: popleft() must be dominated by a
     # truthiness test of the same deque (while/if) -- count unconditional ones
     fc = _find_def(ex, "fill_context")
@@ -186,9 +217,28 @@ def compute():
     gl = _parse("stackscope/_glue.py")
     ag = _find_def(gl, "add_glue_as_needed")
     warns = lambda h: _has_call(h.body, lambda c: _is_attr_call(c, "warnings", "warn"))
-    facts["glue_call_guarded"] = (
-        _guarded_sites(ag, lambda c: _is_name_call(c, "module_fn"), warns)
-        and _guarded_sites(ag, lambda c: _is_name_call(c, "builtin_fn"), warns))
+    # locals that hold a glue function: assigned from a `.pop(...)` call, or from an expression over such
+    # locals; every call of one of them must sit in a try/except Exception that warns
+    glue_vars = set()
+    if ag is not None:
+        changed = True
+        while changed:
+            changed = False
+            for x in ast.walk(ag):
+                if isinstance(x, ast.Assign) and len(x.targets) == 1 and isinstance(x.targets[0], ast.Name):
+                    v = x.targets[0].id
+                    if v in glue_vars:
+                        continue
+                    from_pop = any(isinstance(y, ast.Call) and isinstance(y.func, ast.Attribute) and y.func.attr == "pop"
+                                   for y in ast.walk(x.value))
+                    from_var = any(isinstance(y, ast.Name) and y.id in glue_vars for y in ast.walk(x.value))
+                    if from_pop or from_var:
+                        glue_vars.add(v)
+                        changed = True
+    ncalls = sum(1 for x in ast.walk(ag) if isinstance(x, ast.Call) and isinstance(x.func, ast.Name)
+                 and x.func.id in glue_vars) if ag is not None else 0
+    facts["glue_call_guarded"] = bool(ncalls >= 1 and _guarded_sites(
+        ag, lambda c: isinstance(c.func, ast.Name) and c.func.id in glue_vars, warns, expect=ncalls))
     facts["glue_under_lock"] = False
     if ag is not None:
         for x in ast.walk(ag):
